@@ -157,3 +157,52 @@ Proof.
   - intros [] []; reflexivity.
   - intros bo tp E. injection E as <- <-. repeat split; discriminate.
 Qed.
+
+(* ---------------------------------------------------------------- OrdLattice<T: Ord> *)
+Lemma OrdLat_ok L : LatOK L -> has_ord L = true -> LatOK (OrdLat L).
+Proof.
+  intros OK HO. destruct (ok_cmp_of L OK HO) as [TO P].
+  assert (PL : forall a b, wf L a -> wf L b -> plt L a b = match cmp_of L a b with Lt => true | _ => false end).
+  { intros a b Ha Hb. unfold plt. rewrite P by auto. reflexivity. }
+  assert (PG : forall a b, wf L a -> wf L b -> pgt L a b = match cmp_of L a b with Gt => true | _ => false end).
+  { intros a b Ha Hb. unfold pgt. rewrite P by auto. reflexivity. }
+  apply (total_ok (OrdLat L) (cmp_of L)); cbn; change (wf (OrdLat L)) with (wf L).
+  - apply (ok_eqb L OK).
+  - exact TO.
+  - exact P.
+  - intros c' E a b Ha Hb. unfold cmp_of. rewrite E. reflexivity.
+  - intros a b Ha Hb. unfold ord_max, tmax. rewrite PL by auto. rewrite (to_flip _ _ TO a b) by auto.
+    destruct (cmp_of L a b) eqn:E; cbn; try reflexivity. apply (to_eq _ _ TO) in E; auto.
+  - intros a b Ha Hb. unfold ord_min, tmin. rewrite PL by auto. rewrite (to_flip _ _ TO a b) by auto.
+    destruct (cmp_of L a b) eqn:E; cbn; reflexivity.
+  - intros a b Ha Hb. rewrite PL by auto. destruct (cmp_of L a b); reflexivity.
+  - intros a b Ha Hb. rewrite PG by auto. destruct (cmp_of L a b); reflexivity.
+  - discriminate.
+Qed.
+
+(* ---------------------------------------------------------------- lexicographic comparison *)
+Definition lex_cmp {A B} (c : A -> A -> comparison) (cs : B -> B -> comparison) (a b : A * B) : comparison :=
+  match c (fst a) (fst b) with Eq => cs (snd a) (snd b) | ordering => ordering end.
+
+Lemma lex_total {A B} (WA : A -> Prop) (WB : B -> Prop) c cs :
+  TotalOrd WA c -> TotalOrd WB cs -> TotalOrd (fun p => WA (fst p) /\ WB (snd p)) (lex_cmp c cs).
+Proof.
+  intros TA TB. constructor.
+  - intros [a1 a2] [b1 b2] [Ha1 Ha2] [Hb1 Hb2]. unfold lex_cmp; cbn in *.
+    destruct (c a1 b1) eqn:E.
+    + apply (to_eq _ _ TA) in E; auto. subst b1. rewrite (to_eq _ _ TB a2 b2) by auto. split; congruence.
+    + split; [discriminate|]. intros H. injection H as <- <-.
+      assert (X : c a1 a1 = Eq) by (apply (to_eq _ _ TA); auto). congruence.
+    + split; [discriminate|]. intros H. injection H as <- <-.
+      assert (X : c a1 a1 = Eq) by (apply (to_eq _ _ TA); auto). congruence.
+  - intros [a1 a2] [b1 b2] [Ha1 Ha2] [Hb1 Hb2]. unfold lex_cmp; cbn in *.
+    rewrite (to_flip _ _ TA a1 b1) by auto. destruct (c a1 b1); cbn; try reflexivity.
+    apply (to_flip _ _ TB); auto.
+  - intros [a1 a2] [b1 b2] [d1 d2] [Ha1 Ha2] [Hb1 Hb2] [Hd1 Hd2]. unfold lex_cmp; cbn in *.
+    destruct (c a1 b1) eqn:E1; try discriminate.
+    + apply (to_eq _ _ TA) in E1; auto. subst b1. destruct (c a1 d1); try discriminate; auto.
+      apply (to_lt_trans _ _ TB); auto.
+    + intros _. destruct (c b1 d1) eqn:E2; try discriminate.
+      * apply (to_eq _ _ TA) in E2; auto. subst d1. rewrite E1. reflexivity.
+      * rewrite (to_lt_trans _ _ TA a1 b1 d1) by auto. reflexivity.
+Qed.
